@@ -1,6 +1,6 @@
 // Native replay of watch-mode histories against the REAL session code of beff-wasm (lib.rs + module_resolver.rs, see build.rs), driven through
 // its public entry points: only the three JavaScript host imports are replaced by an in-memory disk, and JsValue by a plain-Rust stand-in.  BUNDLER is thread local, so "a fresh process" is a fresh thread.
-// stdin: {"initial": {file: content}, "steps": [["update", f, c] | ["create", f, c] | ["rebuild"]]}
+// stdin: {"entry": name, "initial": {file: content}, "steps": [["update", f, c] | ["create", f, c] | ["rebuild"]]}
 // stdout: {"rebuilds": [{"step": i, "watch": text, "fresh": text, "equal": bool}]}
 #![allow(dead_code, unused_imports)]
 #[macro_use]
@@ -24,6 +24,7 @@ include!(concat!(env!("OUT_DIR"), "/lib_native.rs"));
 thread_local! {
     static DISK: RefCell<std::collections::BTreeMap<String, String>> = RefCell::new(Default::default());
     static EMITTED: RefCell<Vec<String>> = RefCell::new(vec![]);
+    static ENTRY: RefCell<String> = RefCell::new("entry.ts".to_string());
 }
 /// host: tsc module resolution, here `./x` -> `x.ts` when that file exists
 fn resolve_import(_current_file: &str, specifier: &str) -> Option<String> {
@@ -44,8 +45,9 @@ const SETTINGS: &str = r#"{"string_formats":[],"number_formats":[]}"#;
 /// what the host does on every (re)build, through the PUBLIC entry points: diagnostics, then the bundle
 fn rebuild() -> String {
     EMITTED.with(|e| e.borrow_mut().clear());
-    let diags = bundle_to_diagnostics("entry.ts", SETTINGS);
-    let code = bundle_to_string_v2("entry.ts", SETTINGS);
+    let entry = ENTRY.with(|e| e.borrow().clone());
+    let diags = bundle_to_diagnostics(&entry, SETTINGS);
+    let code = bundle_to_string_v2(&entry, SETTINGS);
     let emitted = EMITTED.with(|e| e.borrow().join("\n"));
     format!(
         "DIAGNOSTICS {}\nCODE {}\nEMITTED {}",
@@ -55,7 +57,9 @@ fn rebuild() -> String {
     )
 }
 fn fresh_process_rebuild(disk: std::collections::BTreeMap<String, String>) -> String {
+    let entry = ENTRY.with(|e| e.borrow().clone());
     std::thread::spawn(move || {
+        ENTRY.with(|e| *e.borrow_mut() = entry);
         DISK.with(|d| *d.borrow_mut() = disk);
         rebuild()
     })
@@ -68,6 +72,9 @@ fn main() {
     let mut inp = String::new();
     std::io::stdin().read_to_string(&mut inp).unwrap();
     let job: serde_json::Value = serde_json::from_str(&inp).expect("job json");
+    if let Some(e) = job["entry"].as_str() {
+        ENTRY.with(|x| *x.borrow_mut() = e.to_string());
+    }
     if let Some(m) = job["initial"].as_object() {
         DISK.with(|d| {
             for (k, v) in m { d.borrow_mut().insert(k.clone(), v.as_str().unwrap().to_string()); }
